@@ -774,3 +774,108 @@ def rule_solve_scalar(rep: Report, repo: Repo):
     ok = len(fill) == 1 and norm(fill[0].value) == "-result[j, i].adjoint()" and isinstance(fill[0]._parent, ast.If) \
         and norm(fill[0]._parent.test) == "index[0] == index[1] and i < j"
     rep.check(ok, R, "second_quantization::solve_sylvester_2nd_quant upper triangle of a diagonal block = minus the adjoint of the computed lower triangle", "", loc(inner))
+
+
+# ---------------------------------------------------------------------------
+# KPM solver: structure only (accuracy / convergence is numerical and not decided)
+# ---------------------------------------------------------------------------
+
+
+def rule_kpm_structure(rep: Report, repo: Repo):
+    R = "E7.kpm"
+    from .resolve import rtext, run_block
+    from .e2 import affine
+
+    # -- kpm.greens_function: Chebyshev expansion of (E - H)^-1 v and residual orientation -----------
+    g = repo.find("kpm::greens_function", R)
+    loc = lambda n: repo.loc("kpm", n)
+    res = [n for n in ast.walk(g) if isinstance(n, ast.Assign) and norm(n.targets[0]) == "residue" and isinstance(n.value, ast.Call)]
+    ok = False
+    if len(res) == 1:
+        arg = res[0].value.args[0] if res[0].value.args else None
+        # residual of (E - H) x = v is  v - (E x - H x) = (H x - E x) + v   (any association / order of the three terms)
+        terms = {}
+        def collect(e, sign):
+            if isinstance(e, ast.BinOp) and isinstance(e.op, (ast.Add, ast.Sub)):
+                collect(e.left, sign)
+                collect(e.right, sign if isinstance(e.op, ast.Add) else -sign)
+            elif isinstance(e, ast.UnaryOp) and isinstance(e.op, ast.USub):
+                collect(e.operand, -sign)
+            else:
+                terms[norm(e)] = terms.get(norm(e), 0) + sign
+        if arg is not None:
+            collect(arg, 1)
+            want = {"hamiltonian @ sol": 1, "energy * sol": -1, "vector": 1}
+            ok = call_name(res[0].value) in ("np.linalg.norm",) and (terms == want or terms == {k: -v for k, v in want.items()}
+                                                                     or terms == {"hamiltonian @ sol": 1, "sol * energy": -1, "vector": 1})
+    rep.check(ok, R, "kpm::greens_function accepts the solution by the residual of (E - H) x = v", norm(res[0].value)[:90] if res else "missing", loc(g))
+    loop = [n for n in ast.walk(g) if isinstance(n, ast.While)]
+    ok = len(loop) == 1 and norm(loop[0].test) == "residue > atol"
+    warn = [n for n in ast.walk(g) if isinstance(n, ast.If) and norm(n.test) == "num_moments > max_moments"]
+    ok2 = len(warn) == 1 and any(isinstance(x, ast.Call) and call_name(x) == "warn" for x in ast.walk(warn[0])) and isinstance(warn[0].body[-1], ast.Break)
+    rep.check(ok and ok2, R, "kpm::greens_function iterates until the residual is below atol or warns (RuntimeWarning) at max_moments",
+              "", loc(g))
+    asg = {norm(n.targets[0]): n for n in ast.walk(g) if isinstance(n, ast.Assign) and isinstance(n.targets[0], ast.Name)}
+    ok = norm(asg["prefactor"].value) == "-2 / np.sqrt(1 - energy ** 2)" if "prefactor" in asg else False
+    ok = ok and norm(asg["coef"].value) == "prefactor * np.sin(np.arange(num_moments) * np.arccos(energy))" if "coef" in asg else False
+    aug = [norm(n) for n in ast.walk(g) if isinstance(n, ast.AugAssign)]
+    ok = ok and "coef[0] /= 2" in aug and "coef *= jackson_kernel(num_moments)" in aug
+    rep.check(ok, R, "kpm::greens_function Chebyshev coefficients of 1/(E - x): -2 sin(n arccos E)/sqrt(1 - E^2), halved at n = 0, Jackson-damped",
+              "; ".join(aug), loc(g))
+    sol = asg.get("sol")
+    ok = sol is not None and norm(sol.value) == "sum((vec * c for c, vec in zip(coef, kpm_vectors(hamiltonian, vector))))"
+    rep.check(ok, R, "kpm::greens_function solution = sum_n c_n T_n(H) v", norm(sol.value) if sol is not None else "", loc(g))
+    kv = repo.find("kpm::kpm_vectors", R)
+    ys = [norm(n.value) for n in ast.walk(kv) if isinstance(n, ast.Yield)]
+    rec = [n for n in ast.walk(kv) if isinstance(n, ast.Assign) and isinstance(n.targets[0], ast.Tuple)]
+    ok = ys[:2] == ["(alpha_prev := vector)", "(alpha := (hamiltonian @ alpha_prev))"] and len(rec) == 1 \
+        and norm(rec[0].targets[0]) == "(alpha, alpha_prev)" and norm(rec[0].value) == "(2 * hamiltonian @ alpha - alpha_prev, alpha)"
+    rep.check(ok, R, "kpm::kpm_vectors Chebyshev recurrence T_0 v = v, T_1 v = H v, T_{n+1} v = 2 H T_n v - T_{n-1} v", str(ys), repo.loc("kpm", kv))
+    rs = repo.find("kpm::rescale", R)
+    ra = {norm(n.targets[0]): norm(n.value) for n in ast.walk(rs) if isinstance(n, ast.Assign) and isinstance(n.targets[0], ast.Name)}
+    ok = ra.get("a") == "np.abs(lmax - lmin) / (2.0 - eps)" and ra.get("b") == "(lmax + lmin) / 2.0"
+    rets = [norm(n.value) for n in ast.walk(rs) if isinstance(n, ast.Return)]
+    ok = ok and rets == ["(rescaled_h, (a, b))"]
+    resc = [v for k, v in ra.items() if k == "rescaled_h"]
+    allh = [norm(n.value) for n in ast.walk(rs) if isinstance(n, ast.Assign) and norm(n.targets[0]) == "rescaled_h"]
+    ok = ok and all(v.endswith("/ a") and "- b *" in v for v in allh) and len(allh) == 2
+    rep.check(ok, R, "kpm::rescale returns (H - b)/a with a = bandwidth/(2 - eps), b = band centre", str(allh), repo.loc("kpm", rs))
+    # -- solve_sylvester_KPM wiring ---------------------------------------------------------------------
+    f = repo.find(f"{MOD}::solve_sylvester_KPM", R)
+    loc = lambda n: repo.loc(MOD, n)
+    fa = {}
+    for n in own_nodes(f):
+        if isinstance(n, ast.Assign):
+            fa.setdefault(norm(n.targets[0]), norm(n.value))  # first assignment (later ones only change the storage format)
+    ok = fa.get("eigs_rescaled") == "[(eig - b) / a for eig in eigs[:-1]]" and fa.get("(h_rescaled, (a, b))", "").startswith("rescale(h_0,")
+    rep.check(ok, R, f"{MOD}::solve_sylvester_KPM rescales the explicit energies with the same (a, b) as the Hamiltonian",
+              str(fa.get("eigs_rescaled")), loc(f))
+    rep.check(fa.get("h_rescaled_T") in ("h_rescaled.T",), R, f"{MOD}::solve_sylvester_KPM applies the Green's function of H^T (rows of Y are solved as columns)",
+              str(fa.get("h_rescaled_T")), loc(f))
+    rep.check(fa.get("kpm_projector") == "ComplementProjector(np.hstack(subspace_eigenvectors))", R,
+              f"{MOD}::solve_sylvester_KPM projects out all explicit and auxiliary vectors", str(fa.get("kpm_projector")), loc(f))
+    inner = [d for d in nested_defs(f) if d.name == "solve_sylvester_kpm"]
+    ok = False
+    if len(inner) == 1:
+        ia = {norm(n.targets[0]): norm(n.value) for n in own_nodes(inner[0]) if isinstance(n, ast.Assign)}
+        r = [n for n in own_nodes(inner[0]) if isinstance(n, ast.Return)]
+        gcalls = [c for c in ast.walk(inner[0]) if isinstance(c, ast.Call) and call_name(c) == "greens_function"]
+        comp = [c for c in ast.walk(inner[0]) if isinstance(c, ast.ListComp)]
+        ok = ia.get("Y_KPM") == "Y @ kpm_projector / a" and len(r) == 1 and call_name(r[0].value) == "np.vstack" and len(gcalls) == 1 \
+            and [norm(a) for a in gcalls[0].args[:3]] == ["h_rescaled_T", "energy", "vector"] and len(comp) == 1 \
+            and norm(comp[0].generators[0].iter) == "zip(eigs_rescaled[index[0]], Y_KPM)" and norm(comp[0].generators[0].target) == "(energy, vector)"
+    rep.check(ok, R, f"{MOD}::solve_sylvester_KPM row a of the solution = G(E_a)(H^T) applied to row a of Y P / a (energies of block index[0])", "", loc(f))
+    outer = [d for d in nested_defs(f) if d.name == "solve_sylvester"]
+    ok = False
+    if len(outer) == 1:
+        ifs = [s for s in outer[0].body if isinstance(s, ast.If)]
+        texts = [(norm(s.test), norm(s.body[0])) for s in ifs]
+        tail = norm(outer[0].body[-1])
+        ok = ("Y is zero", "return zero") in texts and \
+            ("index[1] == len(eigs) - 1", "return solve_sylvester_kpm(Y, index) + solve_sylvester_explicit(Y, index)") in texts and \
+            tail == "return solve_sylvester_explicit(Y, index)"
+    rep.check(ok, R, f"{MOD}::solve_sylvester_KPM implicit column block = KPM part + explicit auxiliary part; other blocks by the diagonal solver", "", loc(f))
+    rep.check(fa.get("solve_sylvester_explicit") == "solve_sylvester_diagonal(eigs, vecs_implicit, atol=solver_options.get('atol'))", R,
+              f"{MOD}::solve_sylvester_KPM explicit part uses the diagonal solver with the auxiliary vectors", str(fa.get("solve_sylvester_explicit")), loc(f))
+    rep.check(fa.get("eigs") == "[(Dagger(eigenvectors) @ h_0 @ eigenvectors).diagonal() for eigenvectors in subspace_eigenvectors]", R,
+              f"{MOD}::solve_sylvester_KPM energies are diag(V_i^H H_0 V_i)", str(fa.get("eigs")), loc(f))
